@@ -417,8 +417,29 @@ def strat_lists(tier):
                     st.tuples(nzint, st.lists(ints, max_size=2)).map(lambda t: [t[0]] + t[1])
                     ).map(lambda t: [(t[0], t[2]), (t[1], t[2])])
   free = st.lists(filt_st(), min_size=1, max_size=3)
+  # 3..5 branches whose denominators are products of one or two factors (1 + r z^-1) out of a pool of 2..3: pairwise
+  # different denominators, yet the denominator of the sum of some branches is another branch's denominator
+  def pooled(t):
+    roots, branches = t
+    out = []
+    for b, idx in branches:
+      den = [1]
+      for i in sorted(set(j % len(roots) for j in idx)):
+        den = [u + roots[i] * v for u, v in zip(den + [0], [0] + den)]
+      out.append((list(b), den))
+    return out
+  patterns = [[(0,), (1,), (0, 1)], [(0,), (1,), (0, 1), (2,), (0, 1, 2)], [(0, 1), (2,), (0, 1, 2)],
+              [(0,), (1,), (2,), (0, 1, 2)], [(1,), (0,), (0, 1), (2,)], [(2,), (0, 1), (0, 1, 2), (0,)]]
+  nums = st.lists(st.lists(ints, min_size=1, max_size=2), min_size=5, max_size=5)
+  roots3 = st.lists(st.sampled_from([1, -1, 2, -2, 3]), min_size=3, max_size=3, unique=True)
+  planned = st.tuples(roots3, st.sampled_from(patterns), nums).map(lambda t: (t[0], list(zip(t[2], t[1]))))
+  loose = st.tuples(st.lists(st.sampled_from([1, -1, 2, -2, 3]), min_size=2, max_size=3, unique=True),
+                    st.lists(st.tuples(st.lists(ints, min_size=1, max_size=2),
+                                       st.lists(st.integers(0, 2), min_size=1, max_size=2, unique=True)),
+                             min_size=3, max_size=5))
+  pool = st.one_of(planned, planned, loose).map(pooled)
   return st.fixed_dictionaries(dict(
-    parts=st.one_of(free, free, share), x=st.lists(qv, max_size=9),
+    parts=st.one_of(free, free, share, pool), x=st.lists(qv, max_size=9),
     how=st.sampled_from(["args", "list"]),
     feed=st.sampled_from(["list", "tuple", "iter", "gen", "stream", "stream"]),
     nest=st.booleans(),
@@ -478,6 +499,16 @@ def run_lists(c):
   labels = ["%d parts" % len(parts), "feed:" + c.get("feed", "list")]
   if len(parts) >= 2 and len(set(tuple(p[1]) for p in parts)) < len(parts):
     labels.append("shared denominator")
+  dens = [trim(dict(enumerate(p[1]))) for p in parts]
+  if len(parts) >= 3 and all(dens[i] != dens[j] for i in range(len(dens)) for j in range(i)):
+    run, hit = dens[0], False       # denominator of the running sum, the way a left fold forms it
+    for d in dens[1:]:
+      if run == d:
+        hit = True
+      else:
+        run = p_mul(run, d)
+    if hit:
+      labels.append("different denominators, a partial sum's denominator is the next branch's")
   # a filter list is a list: it may hold the same filter object at several positions ([f] * n sections), and it is
   # built by list arithmetic (lst * n, n * lst, lst + lst, +=, append / extend / insert) as well as by the constructor
   bld = c.get("build", "plain")
@@ -515,7 +546,7 @@ def run_lists(c):
 
 
 def list_arithmetic(c, parts, x, feed, bld):
-  rep = c.get("rep", 2)
+  rep = c.get("rep", 2) if len(parts) <= 3 else 2
   objs = [mk(p) for p in parts]       # ONE object per part, placed several times
   if bld == "shared":
     idx = list(range(len(parts))) * 2
@@ -1264,6 +1295,83 @@ def run_eq(c):
   return {"nontrivial": order(f) >= 1 and order(g) >= 1, "labels": [cls, rel, c["s1"] + "/" + c["s2"]]}
 
 
+# ---------------------------------------------------------------- (d') == / != / hash with fractional delays
+# z ** -1.5 is a legal ZFilter term (linearize() exists for it), built by the same operators.  With a non-integer
+# power the polynomial keeps its terms in creation order, so the same filter is reached in several term orders.
+FRAC_DELAYS = [.5, 1.5, 2.5, .25, 1.25]
+
+
+def strat_eqfrac(tier):
+  delay = st.one_of(st.integers(0, 3), st.sampled_from(FRAC_DELAYS), st.sampled_from(FRAC_DELAYS))
+  terms = st.lists(st.tuples(delay, nzint), min_size=1, max_size=4, unique_by=lambda t: t[0])
+  dterms = st.lists(st.tuples(st.sampled_from([1, 2, 1.5, 2.5, 1.25]), nzint), max_size=2, unique_by=lambda t: t[0])
+  order = st.sampled_from(["fwd", "rev", "rot", "rev"])
+  return st.fixed_dictionaries(dict(
+    num=terms, den=dterms, num2=terms, den2=dterms,
+    rel=st.sampled_from(["same", "same", "same", "same num", "same den", "independent"]),
+    o1=order, o2=order, b1=st.sampled_from(["dict", "expr"]), b2=st.sampled_from(["dict", "expr"])))
+
+
+def _ordered(terms, how):
+  terms = list(terms)
+  return terms if how == "fwd" else terms[::-1] if how == "rev" else terms[1:] + terms[:1]
+
+
+def _build_frac(num, den, order, how):
+  num, den = _ordered(num, order), _ordered([(0, 1)] + list(den), order)
+  if how == "dict":
+    return ZFilter(dict(num), dict(den))
+  def expr(ts):
+    f = ZFilter(0)
+    for k, v in ts:
+      f = f + v * z ** -k
+    return f
+  return expr(num) / expr(den)
+
+
+def run_eqfrac(c):
+  num, den = [tuple(t) for t in c["num"]], [tuple(t) for t in c["den"]]
+  num2, den2 = [tuple(t) for t in c["num2"]], [tuple(t) for t in c["den2"]]
+  rel = c["rel"]
+  if rel == "same":
+    num2, den2 = num, den
+  elif rel == "same num":
+    num2 = num
+  elif rel == "same den":
+    den2 = den
+  p, q = _build_frac(num, den, c["o1"], c["b1"]), _build_frac(num2, den2, c["o2"], c["b2"])
+  structurally = dict(num) == dict(num2) and dict(den) == dict(den2)
+  what = "f=%r/%r (%s, %s) g=%r/%r (%s, %s)" % (num, den, c["o1"], c["b1"], num2, den2, c["o2"], c["b2"])
+
+  def coherent(a, b, name, expected=None):
+    e, ne = (a == b), (a != b)
+    if e is not True and e is not False or ne is not True and ne is not False:
+      raise Violation("%s: == / != return %r / %r" % (name, e, ne))
+    if e == ne:
+      raise Violation("%s: == is %r and != is %r; %s" % (name, e, ne, what))
+    if expected is not None and e != expected:
+      raise Violation("%s: == is %r but the filters are term by term %s; %s"
+                      % (name, e, "equal" if expected else "different", what))
+    if (b == a) != e or (b != a) != ne:
+      raise Violation("%s: == / != not symmetric; %s" % (name, what))
+    if e and hash(a) != hash(b):
+      raise Violation("%s: equal filters hash differently; %s" % (name, what))
+    return e
+
+  coherent(p, q, "f ? g", structurally)
+  coherent(p, p.copy(), "f ? f.copy()", True)
+  # both sides of the commutative laws over such filters
+  coherent(p + q, q + p, "f+g ? g+f")
+  coherent(p * q, q * p, "f*g ? g*f")
+  frac = lambda ts: any(isinstance(k, float) for k, v in ts)
+  labels = [rel, "equal" if structurally else "different"]
+  if frac(num) or frac(den):
+    labels.append("fractional delay")
+    if structurally and (c["o1"] != c["o2"] or c["b1"] != c["b2"]) and len(num) + len(den) >= 2:
+      labels.append("equal, fractional delays, other term order")
+  return {"nontrivial": (frac(num) or frac(den)) and len(num) + len(den) >= 2, "labels": labels}
+
+
 CLAUSES = [
   Clause("signals", strat_signals, run_signals, quick=500, thorough=12000,
          floors={"f recursive": .3},
@@ -1272,7 +1380,8 @@ CLAUSES = [
          floors={"multi-term, even n >= 6": .1, "odd n": .1, "negative exponent": .03, "f recursive": .15},
          doc="f**n, 5 <= |n| <= 16, on 1..3-term filters: f applied |n| times, |n|-fold product of filters and of polynomials"),
   Clause("cascade_parallel", strat_lists, run_lists, quick=700, thorough=15000,
-         floors={"shared denominator": .1, "same member object at several positions": .3},
+         floors={"shared denominator": .1, "same member object at several positions": .3,
+                 "different denominators, a partial sum's denominator is the next branch's": .06},
          doc="CascadeFilter == product, ParallelFilter == sum: outputs and numpoly/denpoly by cross-multiplication"),
   Clause("long_filters", strat_longf, run_longf, quick=40, thorough=600,
          doc="filters with 34..44 taps and Fraction coefficients: product / sum / cascade / parallel polynomials stay exact"),
@@ -1296,4 +1405,7 @@ CLAUSES = [
   Clause("eq_ne_hash", strat_eq, run_eq, quick=1500, thorough=30000,
          floors={"only denominators differ": .05, "only numerators differ": .05, "equal": .2},
          doc="exactly one of ==, != holds; equal filters hash equally; copies are equal"),
+  Clause("eq_fractional_delays", strat_eqfrac, run_eqfrac, quick=500, thorough=8000,
+         floors={"equal, fractional delays, other term order": .1, "different": .1},
+         doc="== / != / hash on filters with fractional delays (terms kept in creation order) reached in different term orders, and on both sides of f+g = g+f, f*g = g*f"),
 ]
